@@ -9,7 +9,7 @@ EXCL = {
  'C08': 'IEEE rounding; Matrix4 composition laws on vectors for non-affine matrices (false there)',
  'C09': 'IEEE rounding; Quaternion look_at agreement is compositional (C05 round trip + structural equality)',
  'C10': 'IEEE rounding; degenerate accepted frustum parameters (left = right ...) divide by zero',
- 'C11': 'IEEE rounding', 'C12': 'IEEE rounding; centroid beyond 8 points (dimension 1: beyond the 22 sampled lengths up to 300); integer midpoint',
+ 'C11': 'IEEE rounding', 'C12': 'IEEE rounding; centroid beyond 8 points except the sampled lengths (22 up to 300 in dimension 1, 8 up to 260 in dimension 3); integer midpoint',
  'C13': 'modular clauses beyond 64 turns (8 for bisect); 4-epsilon clause outside 2^-1000..2^1017 (f32: 2^-110..2^121) and its (1+delta) model; values of sin/cos themselves',
  'C14': 'IEEE rounding (f32 twins model f32 literals and tolerances, not f32 rounding); the 1e-5 rad clause on the nlerp hand-over path',
  'C15': 'IEEE rounding; from_arc tolerance outside lengths [1e-3, 1e3] (known finding)',
